@@ -499,7 +499,7 @@ def pyGenStep (w : World τ) (a : ActId) (fs : List (Frame τ)) (p : Nat) : Worl
     | .yieldCoro d v failCls catching =>
       let w := w.setPyProc p (fun y =>
         { y with catching := catching, step := y.step + 1, native := none, nativeCoro := some (d, v, failCls), nativeDone := false, nativeExn := none })
-      (w.emitAs a lbl "pyyield" [(pr.step + 1 : Nat), -1, 0, 0]).retTo a fs .unit
+      (w.emitAs a lbl "pyyield" ([((pr.step + 1 : Nat) : Int), -2, v, if failCls.isSome then 1 else 0] ++ tArgs d)).retTo a fs .unit
     | i =>
       match w.pySync a lbl i with
       | (w, none) => w.retTo a (.pyGen p :: fs) .unit
